@@ -221,7 +221,20 @@ app_op(void) {
   x->mid = coap_pdu_get_mid(pdu);
   cur_submit = mi;
   last_event = "submit";
+  /* environment answer: the socket refuses this one transmission (ENOBUFS); coap_send() then reports failure and the
+   * message is no business of the session any more - in particular it occupies no NSTART slot */
+  int refused = 0;
+  if (s == 0 && vx_budget_left() > 0 && vx_choose(2, NULL, "socket-refuses") == 1) {
+    ns_send_fail_next = 1;
+    refused = 1;
+    vx_nontrivial();
+  }
   coap_mid_t r = coap_send(sess[s], pdu);
+  if (refused) {
+    if (ns_send_fail_next == 0)
+      last_event = "submit-refused-by-socket";
+    ns_send_fail_next = 0; /* (the message was held back instead: nothing was refused) */
+  }
   cur_submit = -1;
   x->accepted = r != COAP_INVALID_MID;
   vx_observe("t=%llu SUBMIT #%d s%d %c mid=%04x -> %d", (unsigned long long)ns_now(), mi, s, t, x->mid, r);
@@ -463,7 +476,7 @@ main(int argc, char **argv) {
       }
   vx_ev_rule("executions of a real libcoap client session against a raw peer that ACKs / RSTs only what it received; enumerated: NSTART 1..3 x "
              "all CON/NON type vectors of bursts of 1..4 (thorough 5) messages x one or two bursts x bystander session (also with the same message ids as the main session), and all schedules with "
-             "<= bound deviations (drop / duplicate / reorder of any datagram, timer before delivery, peer verdict RST or silence for CON, RST for NON), plus long bursts of 8 / 13 / 20 messages (all CON, alternating CON/NON, a NON after every third CON) and bursts of 6 with NSTART 1..4 under <= 1 (2) deviations, bursts inside which the message id counter wraps to 0 and bursts whose first Confirmable loses every copy and is given up while later ones are held; "
+             "<= bound deviations (drop / duplicate / reorder of any datagram, timer before delivery, peer verdict RST or silence for CON, RST for NON, the socket refusing the transmission inside coap_send()), plus long bursts of 8 / 13 / 20 messages (all CON, alternating CON/NON, a NON after every third CON) and bursts of 6 with NSTART 1..4 under <= 1 (2) deviations, bursts inside which the message id counter wraps to 0 and bursts whose first Confirmable loses every copy and is given up while later ones are held; "
              "non-trivial = deviation taken or retransmission; distinct = distinct observation logs");
   vx_ev_assumption("datagram (UDP) session; the 'before the session is established' clause is exercised with DTLS in the C19 harness");
   for (int i = 0; i < ncfgs; i++)
